@@ -462,6 +462,9 @@ func (s *session) visitNode(sprint *sprint, run flows.Run, node flows.Node, trig
 		if err := trigger.InitializeRun(run, logEvent); err != nil {
 			return step, nil, "", nil
 		}
+
+		// the trigger might have changed the contact (e.g. a message sets last seen on) so ensure groups are correct
+		s.ensureQueryBasedGroups(logEvent)
 	}
 
 	// execute our node's actions
